@@ -119,9 +119,9 @@ AugString(bc) ==
     IF ~HasAug(bc) THEN <<>>
     ELSE <<ChZ>> \o (IF bc.lenc >= 0 THEN <<ChL>> ELSE <<>>) \o (IF bc.pers.some THEN <<ChP>> ELSE <<>>)
          \o (IF bc.fenc # 0 THEN <<ChR>> ELSE <<>>) \o (IF bc.sig THEN <<ChS>> ELSE <<>>)
-WordSize(fmt) == IF fmt = 32 THEN 4 ELSE 8
-(* write_nop(w, word_size + body_len, address_size) *)
-PadLen(fmt, bodyLen, asz) == (asz - ((WordSize(fmt) + bodyLen) % asz)) % asz
+(* write_nop(w, initial_length_size + body_len, address_size)  (since 6613c53; before, the *)
+(* 8-byte word size was used for the 64-bit format)                                       *)
+PadLen(fmt, bodyLen, asz) == (asz - ((LenSize(fmt) + bodyLen) % asz)) % asz
 (* the property: the length field plus the length is a multiple of the address size *)
 PadOk(fmt, len, asz) == (LenSize(fmt) + len) % asz = 0
 
@@ -130,8 +130,9 @@ CodecCie(kind, bc, praw) ==
     [t |-> "cie", fmt |-> bc.fmt, ver |-> bc.ver, aug |-> AugString(bc), asz |-> bc.asz, seg |-> 0,
      caf |-> bc.caf, daf |-> bc.daf, ra |-> bc.ra,
      lenc |-> IF bc.lenc >= 0 THEN bc.lenc ELSE 0, penc |-> IF bc.pers.some THEN bc.pers.enc ELSE 0,
-     praw |-> praw, renc |-> bc.fenc, augx |-> <<>>, ins |-> <<>>, insx |-> <<>>,
-     rau |-> kind = "eh"]            \* `if !eh_frame && version == 1 { u8 } else { uleb128 }`
+     praw |-> praw, renc |-> bc.fenc, augx |-> <<>>, ins |-> <<>>, insx |-> <<>>]
+     \* version 1 stores the return address register in one byte in both section kinds (since
+     \* ee1bea5; before, .eh_frame used ULEB128 - CfiCodec's optional field `rau` models that)
 
 (* the writer always lays out address-size/segment bytes for version >= 4    *)
 (* and none otherwise; CfiCodec does so for kind "debug"; .eh_frame only     *)
@@ -139,7 +140,7 @@ CodecCie(kind, bc, praw) ==
 EmitCie(kind, bc, off, le) ==
     IF kind = "eh" /\ bc.ver # 1 THEN WErr("UnsupportedVersion")
     ELSE IF kind = "debug" /\ bc.ver \notin {1, 3, 4} THEN WErr("UnsupportedVersion")
-    ELSE IF kind = "debug" /\ bc.ver = 1 /\ bc.ra >= 256 THEN WErr("ValueTooLarge")
+    ELSE IF bc.ver = 1 /\ bc.ra >= 256 THEN WErr("ValueTooLarge")
     ELSE LET c0   == CodecCie(kind, bc, Zero(8))
              (* section offset of the personality pointer: after L's byte and P's encoding byte *)
              ppos == off + LenSize(bc.fmt) + Len(CieIdBytes(kind, bc.fmt)) + Len(CieHead(kind, c0)) + 1
